@@ -75,10 +75,24 @@ def run(ctx):  # noqa: C901, PLR0912, PLR0915
     for q in (f'{SB}.SubscriptionsManagerBase.send_to_subscribers',
               'sdc11073.provider.subscriptionmgr_async.BICEPSSubscriptionsManagerBaseAsync.send_to_subscribers'):
         fi = repo.func(q)
-        src = xsrc(fi)
-        ok = 'self._get_subscriptions_for_action(action)' in src
-        loops = [n for n in walk_no_nested(fi.node) if isinstance(n, ast.For) and unparse(n.iter) == 'subscribers']
-        ok = ok and len(loops) == 1
+        # the local that holds the selection, and the iteration constructs (for loop or comprehension) over it that send
+        sel_vars = [n.targets[0].id for n in walk_no_nested(fi.node) if isinstance(n, ast.Assign)
+                    and isinstance(n.targets[0], ast.Name) and isinstance(n.value, ast.Call)
+                    and call_name(n.value) == '_get_subscriptions_for_action'
+                    and [unparse(a) for a in n.value.args] == ['action']]
+        ok = len(sel_vars) == 1
+        sending = []
+        if ok:
+            def _sends(node):
+                return any(isinstance(c, ast.Call) and 'send_notification_report' in (call_name(c) or '')
+                           for c in ast.walk(node))
+            for n in walk_no_nested(fi.node):
+                if isinstance(n, ast.For) and unparse(n.iter) == sel_vars[0] and _sends(n):
+                    sending.append(n)
+                if isinstance(n, (ast.ListComp, ast.GeneratorExp, ast.SetComp)) and len(n.generators) == 1 and \
+                        unparse(n.generators[0].iter) == sel_vars[0] and not n.generators[0].ifs and _sends(n.elt):
+                    sending.append(n)
+        ok = ok and len(sending) == 1
         ctx.ob('C08.R1', f'{fi.cls.name}.send_to_subscribers', ok,
                'send_to_subscribers sends once to every selected subscriber and to nobody else', fi=fi)
     # matches()
@@ -122,24 +136,41 @@ def run(ctx):  # noqa: C901, PLR0912, PLR0915
 
     # ------------------------------------------------------------------ R3
     rn = repo.func(f'{SB}.SubscriptionBase.renew')
+    # the two private attributes are found by role: the one that gets time.monotonic() is the start of the period, the other
+    # self attribute renew() assigns is the granted duration
+    started = [unparse(n.targets[0]) for n in walk_no_nested(rn.node) if isinstance(n, ast.Assign)
+               and unparse(n.value) == 'time.monotonic()' and unparse(n.targets[0]).startswith('self.')]
+    granted = sorted({unparse(n.targets[0]) for n in walk_no_nested(rn.node) if isinstance(n, ast.Assign)
+                      and unparse(n.targets[0]).startswith('self.') and unparse(n.targets[0]) not in started})
+    if len(started) != 1 or len(granted) != 1:
+        raise AnalysisError(f'C08.R3: renew() does not assign one start attribute and one duration attribute '
+                            f'(start {started}, others {granted})')
+    a_start, a_dur = started[0], granted[0]
     cases = {'below': (10, 100), 'equal': (100, 100), 'above': (500, 100), 'none': (None, 100), 'zero': (0, 100)}
     ok = True
     wit = {}
     for name, (exp, mx) in cases.items():
         _ret, loc = int_eval(rn.node, {'expires': exp, 'self._max_subscription_duration': mx, 'time.monotonic()': 1000})
-        got = loc.get('self._expire_seconds')
+        got = loc.get(a_dur)
         want = min(exp, mx) if exp else mx
         wit[name] = {'expires': exp, 'max': mx, 'granted': got}
         ok = ok and got == want and got <= mx and (not exp or got <= exp)
-        ok = ok and loc.get('self._started') == 1000
+        ok = ok and loc.get(a_start) == 1000
     ctx.ob('C08.R3', 'renew bounded', ok,
            'renew(): granted duration = min(requested, maximum) (maximum if none requested), start on the monotonic '
            'clock - evaluated for requested <, =, > maximum, None and 0', fi=rn, witness=wit)
     rs = repo.func(f'{SB}.SubscriptionBase.remaining_seconds')
-    src = xsrc(rs)
-    ok = 'max(duration, 0)' in src and 'self._expire_seconds - (time.monotonic() - self._started)' in src
+    ok = True
+    wit = {}
+    for name, (dur, start, now) in {'fresh': (100, 1000, 1000), 'half': (100, 1000, 1050.25), 'due': (100, 1000, 1100),
+                                    'overdue': (100, 1000, 1300)}.items():
+        ret, _loc = int_eval(rs.node, {a_dur: dur, a_start: start, 'time.monotonic()': now})
+        want = max(round(dur - (now - start), 2), 0)
+        wit[name] = {'returned': ret, 'expected': want}
+        ok = ok and ret == want
     ctx.ob('C08.R3', 'remaining_seconds', ok,
-           'remaining_seconds = max(expire - (monotonic now - start), 0)', fi=rs)
+           'remaining_seconds = max(granted - (monotonic now - start), 0), rounded to 1/100 s - evaluated before, during, at '
+           'and after the end of the period', fi=rs, witness=wit)
     n_resp = 0
     for hname, resp in (('_mk_subscribe_response_message', 'subscribe_response'),
                         ('on_get_status_request', 'get_status_response'), ('on_renew_request', 'renew_response')):
@@ -270,9 +301,16 @@ def run(ctx):  # noqa: C901, PLR0912, PLR0915
     for q, post in END_SENDERS:
         fi = repo.func(q)
         src = xsrc(fi)
+        g = cfg_of(fi)
+        posts = g.nodes_calling(post)
+        clients = g.nodes_calling('_get_soap_client')
+        # symbolic expansion: the locals between the attributes and the calls do not matter
+        p_sym = [g.symbolic_text(n, c.args[0]) for n, c in posts if c.args]
+        c_sym = [g.symbolic_text(n, c.args[0]) for n, c in clients if c.args]
+        endto = '(self._end_to_url or self.notify_to_url)'
         ok = 'addr_to=self.end_to_address or self.notify_to_address' in src and \
             'reference_parameters=self.end_to_ref_params or self.notify_ref_params' in src and \
-            'url = self._end_to_url or self.notify_to_url' in src
+            p_sym == [f'{endto}.path'] and c_sym == [f'{endto}.netloc']
         ctx.ob('C08.R5', f'{fi.name}: EndTo first', ok,
                f'{fi.cls.name}.{fi.name}: address, reference parameters and connection are EndTo if given, else NotifyTo',
                fi=fi)
@@ -283,7 +321,8 @@ def run(ctx):  # noqa: C901, PLR0912, PLR0915
         ctx.ob('C08.R5', f'{fi.name}: once, only if valid', ok,
                f'{fi.cls.name}.{fi.name}: exactly one post, only for a valid subscription', fi=fi)
         # the posted path and the client netloc come from the same url
-        ok = f'{post}(url.path' in src and '_get_soap_client(url.netloc)' in src
+        ok = len(p_sym) == 1 and len(c_sym) == 1 and p_sym[0].endswith('.path') and c_sym[0].endswith('.netloc') and \
+            p_sym[0][:-len('.path')] == c_sym[0][:-len('.netloc')]
         ctx.ob('C08.R5', f'{fi.name}: connection and path agree', ok,
                'the end message is posted to the path of the url whose netloc selected the client', fi=fi)
     sa = repo.func(f'{SB}.SubscriptionsManagerBase.stop_all')
